@@ -352,3 +352,8 @@ K('C05', 'ag-release-unnormalised-query', [(AG, "            y = Q @ mu + np.ran
 T('C05', 'mst-sigma-respelled', [(MST, "    sigma = np.sqrt(3/(2*rho))", "    sigma = (1.5/rho)**0.5")])
 T('C05', 'aim-charge-split', [(AIM, "            rho_used += 1.0/8 * epsilon**2 + 0.5/sigma**2\n", "            rho_used += 1.0/8 * epsilon**2\n            rho_used += 0.5/sigma**2\n")])
 T('C05', 'mwem-sigma-respelled', [(MWEM, "        sigma = np.sqrt(0.5 / (alpha*rho_per_round))", "        sigma = np.sqrt(1 / (2*alpha*rho_per_round))")])
+
+
+# ------------------------------------------------------------------ every property: the reformatted tree must give the same verdict
+for _p in ['C01', 'C02', 'C04', 'C05', 'C06', 'C07', 'C08', 'C09', 'C10', 'C13', 'C14', 'C15', 'C16', 'C18', 'C19', 'C20']:
+    MUTANTS.append({'prop': _p, 'id': 'reformatted-tree', 'kind': 'T', 'edits': 'REFORMAT'})
